@@ -54,9 +54,9 @@ func VerifDeployStatus(arg string) {
 	// recorded workloads; its maximum is compared with prior + planned afterwards
 	maxSeen := map[string]int{}
 	belowRecorded := false
-	steps := 0
+
 	w.onStep = func() {
-		steps++
+
 		for _, n := range nodes {
 			k := vDeployCount(w, n)
 			if k > maxSeen[n] {
@@ -86,7 +86,6 @@ func VerifDeployStatus(arg string) {
 	}
 	w.onStep()
 	vObserve("fault_site", w.site)
-	vObserve("steps", steps)
 	vCover("deployment-creates-something", okCount > 0)
 	vCover("deployment-fails-part-way", okCount > 0 && okCount < vConcrete(count))
 	vAssert("C13/count-never-below-recorded-workloads", !belowRecorded)
